@@ -135,9 +135,8 @@ impl FieldElement for BaseElement {
 
     #[inline]
     fn double(self) -> Self {
-        let ret = (self.0 as u128) << 1;
-        let (result, over) = (ret as u64, (ret >> 64) as u64);
-        Self(result.wrapping_sub(M * over))
+        // 2a can be >= M without overflowing 64 bits (a in [M/2, 2^63)); `+` reduces in both cases
+        self + self
     }
 
     #[inline]
